@@ -140,3 +140,8 @@ Proof.
   - unfold wire in E. destruct (proj2 (wire_wf ndesc (ns_vals sub) links) T _ _ _ _ E) as (new & -> & _ & W). exact W.
   - eapply wire_flat_order. exact E.
 Qed.
+
+(* the per-index condition may be given as a list *)
+Lemma idx_ok_by_list repr leval sub n :
+  Forall (idx_ok repr leval sub) (span 0 n) -> forall i, (i < n)%N -> idx_ok repr leval sub i.
+Proof. intros H i Hi. rewrite Forall_forall in H. apply H. apply span_in. lia. Qed.
